@@ -40,32 +40,60 @@ class SimThread(object):
 
 
 class SimLock(object):
-    def __init__(self, sched):
+    def __init__(self, sched, reentrant=False):
         self.sched = sched
         self.owner = None
         self.waiters = []
+        self.reentrant = reentrant
+        self.depth = 0
 
     def acquire(self, blocking=True, timeout=-1):
         s = self.sched
         me = s.current
         if me is None or not s.active:
             # outside the concurrent phase: single-threaded, never contended
+            if self.owner == 'outside' and not self.reentrant and blocking \
+                    and (timeout is None or timeout < 0):
+                raise W.SimHang('deadlock: the only thread acquires a lock '
+                                'it already holds')
+            if self.owner == 'outside' and not self.reentrant:
+                return False
             self.owner = 'outside'
+            self.depth += 1
             return True
         s.yield_point('lock.acquire')
+        if self.reentrant and self.owner == me.tid:
+            self.depth += 1
+            return True
+        deadline = None
+        if blocking and timeout is not None and timeout >= 0:
+            # a timed wait: measured on the simulated clock
+            deadline = s.w.now + int(round(timeout * 1e6))
+            s.stats['timed_lock_waits'] += 1
         while self.owner is not None:
             if not blocking:
                 return False
+            if deadline is not None and s.w.now >= deadline:
+                s.stats['lock_wait_timed_out'] += 1
+                return False
             me.state = 'lock'
             me.blocked_on = self
+            me.deadline = deadline
             self.waiters.append(me)
             s.stats['lock_contended'] += 1
             s.switch_away(me)
+            me.state = 'runnable'
+            me.deadline = None
         self.owner = me.tid
+        self.depth = 1
         return True
 
     def release(self):
         s = self.sched
+        if self.reentrant and self.depth > 1:
+            self.depth -= 1
+            return
+        self.depth = 0
         self.owner = None
         for t in self.waiters:
             if t.state == 'lock':
@@ -194,10 +222,11 @@ class Scheduler(object):
         self.stats = W.collections.Counter()
         self.granularity = granularity
         self._locks = []
+        self.stall = None
 
     # -- objects handed to lomond
-    def make_lock(self):
-        lk = SimLock(self)
+    def make_lock(self, reentrant=False):
+        lk = SimLock(self, reentrant)
         self._locks.append(lk)
         return lk
 
@@ -208,9 +237,23 @@ class Scheduler(object):
             return
         h = len(data) // 2
         sock._record_out(data[:h])
-        self.yield_point('sendall.mid')
+        me = self.current
+        st = self.stall
+        if st and st.get('tid') == me.tid and \
+                st.get('k', 0) == self.stats['split_writes:%d' % me.tid]:
+            # the peer stops reading: this sendall blocks (in the kernel)
+            # for a while with half of the data out
+            self.stats['stalled_writes'] += 1
+            me.state = 'sleep'
+            me.deadline = self.w.now + int(st['us'])
+            self.switch_away(me)
+            me.state = 'runnable'
+            me.deadline = None
+        else:
+            self.yield_point('sendall.mid')
         sock._record_out(data[h:])
         self.stats['split_writes'] += 1
+        self.stats['split_writes:%d' % me.tid] += 1
 
     # -- thread management
     def add_thread(self, name, target):
@@ -274,16 +317,22 @@ class Scheduler(object):
                     cands.append(t.tid)
                 else:
                     pollers = True
+            elif t.state in ('sleep', 'lock') and t.deadline is not None:
+                if w.now >= t.deadline:
+                    cands.append(t.tid)
+                else:
+                    pollers = True
         if pollers and (w.timeline or any(
-                t.state == 'poll' and t.deadline is not None
-                for t in self.threads)):
+                t.state in ('poll', 'sleep', 'lock') and
+                t.deadline is not None for t in self.threads)):
             cands.append(CLOCK)
         return cands
 
     def _advance_clock(self):
         w = self.w
         targets = [t.deadline for t in self.threads
-                   if t.state == 'poll' and t.deadline is not None]
+                   if t.state in ('poll', 'sleep', 'lock') and
+                   t.deadline is not None]
         if w.timeline:
             targets.append(w.timeline[0][0])
         if not targets:
@@ -448,6 +497,7 @@ def run(scen):
     programs = scen.get('threads') or []
     chooser = make_chooser(scen.get('schedule') or {}, len(programs) + 1)
     sched = Scheduler(w, chooser, scen.get('max_steps', 20000))
+    sched.stall = scen.get('stall')
     w.sched = sched
     trace = netsim.Trace()
     trace.world = w
